@@ -21,6 +21,10 @@ BIGCLAMP = 1 << 60  # results beyond the 32-bit datapath saturate; the activatio
 # H6 leaves two admissible readings of the 32-bit operand scaling of ADD/SUB: 2 = pre-shift then double-rounding scaler (the structure of the
 # reference kernel), 1 = single rounding of the product.  Callers that compare against a reference accept either (see props/c01.py).
 OPERAND_SCALING = 2
+# 32-bit feature maps (MEAN's accumulated sum and the multiplication that scales it) are modelled under the reading that a 32-bit OFM is the scaled accumulator
+# itself - no zero point, no 16-bit activation clamp - and that a 32-bit IFM is multiplied as it is.  Adopted by the bring-up rule of DESIGN.md H5: 240 generated
+# MEAN networks agreed with the reference under this reading and none under the alternative (zero point and clamp applied).  Other 32-bit operations stay unmodelled.
+MODEL_32BIT = True
 
 
 class Unmodelled(Exception):
@@ -265,9 +269,13 @@ def run_kernel_op(f, accel, mem):
     oh, ow, od = o["height"], o["width"], o["depth"]
     rmode = o["rounding"]
     extra_reads = []
-    if o["bits"] == 32 or f["ifm"]["bits"] == 32:
+    wide = o["bits"] == 32 or f["ifm"]["bits"] == 32
+    if wide and not MODEL_32BIT:
         # whether and how zero points and scaling apply on the 32-bit paths is not pinned down by anything available here (H6)
         raise Unmodelled("32-bit feature map datapath")
+    if wide and not (kind in ("conv", "depthwise") and o["bits"] == 32 and f["ifm"]["bits"] != 32 or kind == "elementwise" and f["mode"] == "MUL" and f["ifm"]["bits"] == 32 and o["bits"] != 32):
+        raise Unmodelled("32-bit feature map datapath (%s)" % (f.get("mode") or kind))
+    ofm_zp = 0 if o["bits"] == 32 else o["zero_point"]  # reading used when MODEL_32BIT: a 32-bit OFM carries the raw scaled accumulator
     if kind in ("conv", "depthwise"):
         P, V, iaddr = window_input(mem, f)
         W, bias, scl, shf, extra_reads = decode_weight_volume(mem, f, accel)
@@ -282,7 +290,7 @@ def run_kernel_op(f, accel, mem):
                 else:
                     acc += patch @ W[:, ky, kx, :].T
         acc += bias
-        v = scale_round(acc, scl, shf, rmode) + o["zero_point"]
+        v = scale_round(acc, scl, shf, rmode) + ofm_zp
     elif kind == "pool":
         P, V, iaddr = window_input(mem, f)
         k = f["kernel"]
@@ -318,8 +326,6 @@ def run_kernel_op(f, accel, mem):
                 f["_approximate"] = True
     elif kind == "elementwise":
         mode = f["mode"]
-        if f["ifm"]["bits"] == 32 or o["bits"] == 32:
-            raise Unmodelled("32-bit elementwise datapath")
         a, iaddr = read_ifm(mem, f, "ifm", (oh, ow, od))
         b = None
         if "broadcast" in f:
@@ -377,7 +383,8 @@ def run_kernel_op(f, accel, mem):
     else:
         raise Unmodelled(kind)
     lo, hi = (-(1 << (o["bits"] - 1)), (1 << (o["bits"] - 1)) - 1) if o["signed"] else (0, (1 << o["bits"]) - 1)
-    v = apply_activation(v, f, mem, accel)
+    if o["bits"] != 32:  # (MODEL_32BIT reading: the 16-bit clamp registers do not apply to a 32-bit OFM)
+        v = apply_activation(v, f, mem, accel)
     v = np.clip(v, lo, hi)
     write_ofm(mem, f, v)
 
